@@ -32,6 +32,7 @@ RULE = (
     'one reads. non-trivial = nesting depth >= 2 and (an exception exit or an inverse applied after its block was '
     'left), or >= 2 thread switches while two threads have open blocks. distinct = distinct event sequences.'
     ' Also: the same operator object is inverted again and again (.I, .inverse(), InverseOperator(op)), under different configurations and from different threads: every inverse carries the configuration active at its own creation.'
+    ' Also: a third option set holding an operator-valued option (a preconditioner), compared after every event with what the caller put into the dict.'
 )
 ASSUMPTIONS = [
     'interleavings are explored at the granularity of API events (the harness owns the schedule), not of bytecodes',
